@@ -6,6 +6,9 @@ open SSVerif.Hist
 #print axioms C01_search_grammar_projects
 #print axioms C01_reported_sentence_in_loaded_grammar
 #print axioms C01_partial_in_loaded_grammar
+#print axioms C01_null_prop_preserves_WFHist
+#print axioms C01_start_establishes_WFHist
+#print axioms C01_append_preserves_WFHist
 #print axioms wfHistB_iff
 #print axioms decidePrefix_sound
 #print axioms SSVerif.Nfa.decideAccepts_sound
